@@ -48,6 +48,7 @@ class Gen:
         self.outputs = []        # path texts (as written) of outputs so far
         self.sources = ["a.c", "b.c", "lib/c.h", "gen.dd", "x y", "d:e"]
         self.pools = ["console"]
+        self.used = []           # inputs/validations already mentioned by a build statement
         self.crlf = False
         self.version_ok = False
 
@@ -106,7 +107,7 @@ class Gen:
             elif k < 0.90:
                 toks.append(b"$" + self.nl() + self.r.choice([b"", b"  ", b"      "]))
             elif k < 0.93:
-                toks.append(b"$^" if (self.version_ok or self.p(0.2)) else b"$$^")
+                toks.append(b"$^" if (self.version_ok or self.p(0.04)) else b"$$^")
             else:
                 toks.append(self.r.choice([b"$x.y", b"$x-y_z", b"${x}y", b"$x$y", b"a$ b"]))
             if i + 1 < n and self.p(0.6):
@@ -131,8 +132,11 @@ class Gen:
             return b"${pfx}" + t       # pfx usually undefined -> empty
         if k < 0.90:
             return t[:1] + b"$" + self.nl() + b"  " + t[1:]
-        if k < 0.95:
-            return self.varref(ctx, False) + t
+        if k < 0.993:
+            v = self.varref(ctx, False)
+            if not v.startswith(b"${"):
+                v = b"${" + v[1:] + b"}"
+            return v + t
         return self.varref(ctx, False)
 
     def fresh_out(self):
@@ -151,11 +155,16 @@ class Gen:
     def stmt_var(self, ctx):
         k = self.r.random()
         if k < 0.06:
-            v = self.r.choice([b"1.14", b"1.14.1", b"1.3", b"1.15", b"2.0", b"0.9", b"1", b" 1.14",
-                               b"x", b"1.x", b"01.014", b"", b"1.99999999999999999999", b"-1.5"])
+            v = self.r.choice([b"1.14", b"1.14.1", b"1.3", b"1.14", b"1.0", b"0.9", b"1", b" 1.14", b"1.14",
+                               b"x", b"1.x", b"01.014", b"", b"-1.5", b"1.13.9", b"1.4294967297"] +
+                              ([b"1.15", b"2.0", b"1.99999999999999999999", b"4294967297.0"] if self.p(0.15) else []))
             if v in (b"1.14", b"1.14.1", b"01.014"):
                 self.version_ok = True
             return self.let_tokens("ninja_required_version", [v])
+        if k < 0.10:
+            if "pd" not in ctx.vars:
+                ctx.vars.append("pd")
+            return self.let_tokens("pd", [self.r.choice([b"3", b"5", b"$x"])])
         if k < 0.30:
             name = self.r.choice(RESERVED + SPECIALS)
         else:
@@ -186,20 +195,20 @@ class Gen:
             name = "pl%d" % self.npool
         toks = [b"pool", self.sp(), name.encode(), self.nl()]
         k = self.r.random()
-        if k < 0.78:
+        if k < 0.85:
             d = self.r.choice([b"0", b"1", b"4", b"16", b"007", b"2147483647", b"-0"])
-        elif k < 0.86:
+        elif k < 0.88:
             d = self.r.choice([b"-1", b"abc", b"", b"4 ", b"+3", b"2147483648", b"99999999999999999999",
                                b"1.5", b"0x10", b"-", b"4x"])
         elif k < 0.93:
-            d = b"$x"
+            d = self.r.choice([b"$pd", b"$pd", b"$x"])
         else:
             d = None
         if d is not None:
             toks += [self.indent()] + self.let_tokens("depth", [d])
             if self.p(0.1):
                 toks += [self.indent()] + self.let_tokens("depth", [self.r.choice([b"3", b"z"])])
-        if self.p(0.05):
+        if self.p(0.012):
             toks += [self.indent()] + self.let_tokens(self.r.choice(["x", "command"]), [b"1"])
         if name not in self.pools:
             self.pools.append(name)
@@ -208,9 +217,9 @@ class Gen:
     def stmt_rule(self, ctx, force_name=None):
         if force_name:
             name = force_name
-        elif self.p(0.05) and ctx.rules:
+        elif self.p(0.012) and ctx.rules:
             name = self.r.choice(ctx.rules)
-        elif self.p(0.04):
+        elif self.p(0.012):
             name = "phony"
         else:
             self.nrule += 1
@@ -218,7 +227,7 @@ class Gen:
         toks = [b"rule", self.sp(), name.encode(), self.nl()]
         ind = self.indent()
         binds = []
-        if not self.p(0.04):
+        if not self.p(0.012):
             binds.append(("command", self.value_tokens(ctx, True) or [b"cmd"]))
         if self.p(0.5):
             binds.append(("description", self.value_tokens(ctx, True)))
@@ -230,15 +239,18 @@ class Gen:
         if k < 0.2:
             binds.append(("rspfile", [self.r.choice([b"$out.rsp", b"r$ sp"])]))
             binds.append(("rspfile_content", self.value_tokens(ctx, True) or [b"$in"]))
-        elif k < 0.24:
+        elif k < 0.206:
             binds.append(("rspfile", [b"$out.rsp"]))
-        elif k < 0.28:
+        elif k < 0.212:
             binds.append(("rspfile_content", [b"$in_newline"]))
-        elif k < 0.31:
+        elif k < 0.216:
             binds.append(("rspfile", []))
             binds.append(("rspfile_content", [b"c"]))
+        elif k < 0.25:
+            binds.append(("rspfile", [b"$undefined_var"]))
+            binds.append(("rspfile_content", [b"$undefined_var"]))
         if self.p(0.2):
-            binds.append(("pool", [self.r.choice(self.pools + ["nopool", "", "$x", "$out"]).encode()]))
+            binds.append(("pool", [(self.r.choice(self.pools) if self.p(0.85) else self.r.choice(["nopool", "", "$x", "$out"])).encode()]))
         if self.p(0.15):
             binds.append(("restat", [self.r.choice([b"1", b"", b"$x"])]))
         if self.p(0.1):
@@ -246,10 +258,10 @@ class Gen:
         if self.p(0.1):
             binds.append(("msvc_deps_prefix", [b"Note: $x"]))
         if self.p(0.1):
-            binds.append(("dyndep", [self.r.choice([b"$dd", b"gen.dd", b"$in", b"${out}.dd"])]))
-        if self.p(0.03):
+            binds.append(("dyndep", [self.r.choice([b"$dd", b"$dd", b"$dd", b"$dd", b"$dd", b"gen.dd", b"$in", b"${out}.dd"])]))
+        if self.p(0.01):
             binds.append((self.r.choice(["x", "cflags", "in"]), [b"v"]))
-        if self.p(0.03):   # cycles between rule variables
+        if self.p(0.015):   # cycles between rule variables
             binds.append(("description", [self.r.choice([b"$command", b"$description", b"a $depfile"])]))
             binds.append(("depfile", [self.r.choice([b"$description", b"$command"])]))
         if self.p(0.1) and binds:
@@ -274,7 +286,7 @@ class Gen:
                 outs.append(outs[0])
             else:
                 outs.append(self.fresh_out())
-        if self.p(0.04) and ctx.rules:
+        if self.p(0.012) and ctx.rules:
             rule = "norule"
         elif self.p(0.28) or not ctx.rules:
             rule = "phony"
@@ -291,7 +303,7 @@ class Gen:
                 o = self.fresh_out()
                 outs.append(o)
                 toks += [self.path_text(o, ctx), self.sp()]
-        if self.p(0.03):
+        if self.p(0.008):
             toks = toks[:2]      # no output at all
         toks += [b":" if not self.p(0.1) else b": ", self.r.choice([b"", b" ", b" "]), rule.encode()]
         ins = []
@@ -305,8 +317,13 @@ class Gen:
         ex = some_inputs(3)
         if phony_self and self.p(0.5):
             ex.insert(self.r.randrange(len(ex) + 1), outs[0])
+        written = []
+        def emit(q):
+            t = self.path_text(q, ctx)
+            written.append(t)
+            return t
         for q in ex:
-            toks += [self.sp(), self.path_text(q, ctx)]
+            toks += [self.sp(), emit(q)]
         ins += ex
         if self.p(0.3) and not (phony_self and self.p(0.8)):
             toks += [self.sp(), b"|"]
@@ -314,7 +331,7 @@ class Gen:
             if phony_self and self.p(0.5):
                 im.append(outs[0])
             for q in im:
-                toks += [self.sp(), self.path_text(q, ctx)]
+                toks += [self.sp(), emit(q)]
             ins += im
         if self.p(0.3) or (phony_self and self.p(0.6)):
             toks += [self.sp(), b"||"]
@@ -322,7 +339,7 @@ class Gen:
             if phony_self:
                 oo.insert(self.r.randrange(len(oo) + 1), outs[0])
             for q in oo:
-                toks += [self.sp(), self.path_text(q, ctx)]
+                toks += [self.sp(), emit(q)]
             ins += oo
         if self.p(0.2):
             toks += [self.sp(), b"|@"]
@@ -338,10 +355,10 @@ class Gen:
                 if k < 0.25:
                     name, val = self.r.choice(PLAINVARS + list(ctx.vars)), self.value_tokens(ctx, False, True)
                 elif k < 0.40:
-                    name, val = "pool", [self.r.choice(self.pools + ["", "nopool", "$x"]).encode()]
-                elif k < 0.60:
+                    name, val = "pool", [(self.r.choice(self.pools + [""]) if self.p(0.9) else self.r.choice(["nopool", "$x"])).encode()]
+                elif k < 0.60 and ins:
                     name = "dyndep"
-                    val = [self.path_text(self.r.choice(ins), ctx)] if ins and self.p(0.75) else [b"gen.dd"]
+                    val = [self.r.choice(written)] if self.p(0.93) else [b"gen.dd"]
                 elif k < 0.70:
                     name, val = "description", self.value_tokens(ctx, False, True)
                 elif k < 0.75:
@@ -361,14 +378,18 @@ class Gen:
         for q in ins:
             if q not in self.sources and q not in self.outputs:
                 self.sources.append(q)
+            if q not in self.used:
+                self.used.append(q)
         return toks
 
     def stmt_default(self, ctx):
+        if not self.outputs and not self.p(0.1):
+            return self.stmt_comment()
         toks = [b"default"]
-        k = self.r.choice([0, 1, 1, 1, 2, 3]) if not self.p(0.03) else 0
+        k = self.r.choice([1, 1, 1, 2, 3]) if not self.p(0.015) else 0
         for _ in range(k):
-            if self.p(0.9) and (self.outputs or self.sources):
-                q = self.known_path() if self.p(0.3) or not self.outputs else self.r.choice(self.outputs)
+            if self.p(0.97) and (self.outputs or self.used):
+                q = self.r.choice(self.used) if (self.p(0.3) and self.used) or not self.outputs else self.r.choice(self.outputs)
             else:
                 q = "nosuch"
             toks += [self.sp(), self.path_text(q, ctx)]
@@ -423,7 +444,7 @@ class Gen:
                     toks += self.stmt_var(ctx)
             else:
                 toks += self.stmt_comment()
-        if self.p(0.08) and toks and toks[-1] in (b"\n", b"\r\n"):
+        if self.p(0.04) and toks and toks[-1] in (b"\n", b"\r\n"):
             toks.pop()           # no newline at end of file
         self.crlf = saved_crlf
         return name
